@@ -205,9 +205,9 @@ func (v *Vue) evalObjectBinding(ctx VueContext, attrName, expr string) string {
 
 // parseObjectPairs parses key:value pairs from an object literal.
 // Returns a slice of resolved values in order.
-// With quoteStrings, string values are written in quotes, so that a reader of the pair (the class
-// builder) does not mistake the string "0" or "false" for the number or the boolean.
-func (v *Vue) parseObjectPairs(ctx VueContext, content string, quoteStrings bool) []string {
+// For a class object the value is reduced to its truthiness (the one it has in v-if), so that the
+// class builder reads true or false and nothing else.
+func (v *Vue) parseObjectPairs(ctx VueContext, content string, classObject bool) []string {
 	var pairs []string
 
 	// Split by comma, but respect quoted strings
@@ -229,6 +229,14 @@ func (v *Vue) parseObjectPairs(ctx VueContext, content string, quoteStrings bool
 		key = strings.Trim(key, "'")
 		valueExpr := strings.TrimSpace(item[colonIdx+1:])
 
+		// In a class object the value only decides whether the key is included: it is read as a
+		// condition, so that it has the truthiness it has in v-if (nil, undefined, "!missing", ...)
+		if classObject {
+			truthy, err := v.evalConditionExpr(ctx, valueExpr)
+			pairs = append(pairs, fmt.Sprintf("%s:%t", key, err == nil && truthy))
+			continue
+		}
+
 		// Try to resolve as expression first (handles literals and expressions)
 		val, err := v.exprEval.Eval(valueExpr, ctx.stack.EnvMap())
 		if err != nil {
@@ -242,10 +250,6 @@ func (v *Vue) parseObjectPairs(ctx VueContext, content string, quoteStrings bool
 		}
 
 		// Store both key and resolved value
-		if str, isString := val.(string); isString && quoteStrings {
-			pairs = append(pairs, fmt.Sprintf("%s:%q", key, str))
-			continue
-		}
 		pairs = append(pairs, fmt.Sprintf("%s:%v", key, val))
 	}
 
